@@ -1,2 +1,190 @@
+//! C14: mapped bytecode against the parsed operation list, on the real crates: mapping succeeds exactly when parsing succeeds (same
+//! kind of error), same operations in the same order, random access agrees with the list (and is None past the end, never a panic),
+//! building from operations reproduces the serialised bytes, and executing the mapped form equals executing the list.
+use crate::refsem::PreState;
 use crate::Ctx;
-pub fn run(_ctx: &Ctx) {}
+use essential_asm as asm;
+use essential_types::{solution::Solution, ContentAddress, PredicateAddress, Word};
+use essential_vm::{bytecode::BytecodeMapped, Access, GasLimit, Vm};
+use std::sync::Arc;
+
+fn access() -> Access {
+    let sol = Solution {
+        predicate_to_solve: PredicateAddress { contract: ContentAddress([0; 32]), predicate: ContentAddress([0; 32]) },
+        predicate_data: vec![vec![1, 2]],
+        state_mutations: vec![],
+    };
+    Access::new(Arc::new(vec![sol]), 0)
+}
+
+fn kind(e: &asm::FromBytesError) -> u8 {
+    match e {
+        asm::FromBytesError::InvalidOpcode(_) => 1,
+        asm::FromBytesError::NotEnoughBytes(_) => 2,
+    }
+}
+
+fn check_bytes(ctx: &Ctx, id: &str, bytes: &[u8]) {
+    if !ctx.want(id) {
+        return;
+    }
+    let r = std::panic::catch_unwind(|| {
+        let parsed: Result<Vec<asm::Op>, asm::FromBytesError> = asm::from_bytes(bytes.iter().copied()).collect();
+        let borrowed = BytecodeMapped::<asm::Op, &[u8]>::try_from(bytes);
+        let owned = BytecodeMapped::<asm::Op, Vec<u8>>::try_from(bytes.to_vec());
+        match (&parsed, &borrowed, &owned) {
+            (Ok(ops), Ok(b), Ok(o)) => {
+                let bo: Vec<asm::Op> = b.ops().collect();
+                let oo: Vec<asm::Op> = o.ops().collect();
+                if &bo != ops || &oo != ops {
+                    return Some(format!("ops() differ from the parsed list {:?}", ops));
+                }
+                if b.op_indices().len() != ops.len() || o.op_indices().len() != ops.len() {
+                    return Some("number of op indices differs from the number of parsed ops".into());
+                }
+                for i in 0..ops.len() + 3 {
+                    if b.op(i) != ops.get(i).copied() || o.op(i) != ops.get(i).copied() {
+                        return Some(format!("op({i}) = {:?} but list.get({i}) = {:?}", b.op(i), ops.get(i)));
+                    }
+                }
+                let rebuilt: BytecodeMapped<asm::Op, Vec<u8>> = ops.iter().copied().collect();
+                if rebuilt.bytecode() != bytes || rebuilt.op_indices() != o.op_indices() {
+                    return Some("building the mapped form from the operations does not reproduce the bytes / indices".into());
+                }
+                None
+            }
+            (Err(e), Err(b), Err(o)) => {
+                if kind(e) == kind(b) && kind(e) == kind(o) {
+                    None
+                } else {
+                    Some(format!("parse error {:?} but mapping errors {:?} / {:?}", e, b, o))
+                }
+            }
+            _ => Some(format!("parse ok={} but mapping ok={} (borrowed) ok={} (owned)", parsed.is_ok(), borrowed.is_ok(), owned.is_ok())),
+        }
+    });
+    match r {
+        Err(_) => ctx.fail(id, "mapping / random access never panics and agrees with parsing", format!("PANIC on bytes {:?}", bytes)),
+        Ok(Some(d)) => ctx.fail(id, "mapped bytecode == parsed operation list (success, error kind, order, random access, rebuild)", format!("bytes {:?}: {d}", bytes)),
+        Ok(None) => ctx.pass(),
+    }
+}
+
+fn exec_both(ctx: &Ctx, id: &str, ops: &[asm::Op], start_pc: usize, stack0: &[Word]) {
+    if !ctx.want(id) {
+        return;
+    }
+    let st = (PreState::default(), PreState::default());
+    let cost = |_: &asm::Op| 1u64;
+    let r = std::panic::catch_unwind(std::panic::AssertUnwindSafe(|| {
+        let mut a = Vm::default();
+        let mut b = Vm::default();
+        for w in stack0 {
+            a.stack.push(*w).unwrap();
+            b.stack.push(*w).unwrap();
+        }
+        a.pc = start_pc;
+        b.pc = start_pc;
+        let ra = a.exec_ops(ops, access(), &st, &cost, GasLimit { per_yield: GasLimit::DEFAULT_PER_YIELD, total: 300 }).map_err(|e| format!("{e}"));
+        let mapped: BytecodeMapped<asm::Op, Vec<u8>> = ops.iter().copied().collect();
+        let rb = b.exec_bytecode(&mapped, access(), &st, &cost, GasLimit { per_yield: GasLimit::DEFAULT_PER_YIELD, total: 300 }).map_err(|e| format!("{e}"));
+        let sa: Vec<Word> = a.stack.clone().into();
+        let sb: Vec<Word> = b.stack.clone().into();
+        let ma: Vec<Word> = a.memory.clone().into();
+        let mb: Vec<Word> = b.memory.clone().into();
+        if ra != rb || a.pc != b.pc || sa != sb || ma != mb || a.halt != b.halt || a.repeat != b.repeat {
+            Some(format!("list: {:?} pc={} stack={:?} mem={:?} halt={} | mapped: {:?} pc={} stack={:?} mem={:?} halt={}", ra, a.pc, sa, ma, a.halt, rb, b.pc, sb, mb, b.halt))
+        } else {
+            None
+        }
+    }));
+    match r {
+        Err(_) => ctx.fail(id, "executing the mapped form never panics where executing the list does not", format!("PANIC: ops {:?} start pc {start_pc} stack {:?}", ops, stack0)),
+        Ok(Some(d)) => ctx.fail(id, "executing the mapped form and the operation list give identical final states, gas and errors", format!("ops {:?} start pc {start_pc} stack {:?}: {d}", ops, stack0)),
+        Ok(None) => ctx.pass(),
+    }
+}
+
+pub fn run(ctx: &Ctx) {
+    // ---- byte strings: all of length <= 2; length 3 and 4 over a representative alphabet; Push with every truncation
+    check_bytes(ctx, "bytes/empty", &[]);
+    for a in 0..=255u8 {
+        check_bytes(ctx, &format!("bytes/{a}"), &[a]);
+        for b in 0..=255u8 {
+            if !ctx.thorough && b % 5 != a % 5 {
+                continue;
+            }
+            check_bytes(ctx, &format!("bytes/{a}/{b}"), &[a, b]);
+        }
+    }
+    let push_op: u8 = asm::to_bytes([asm::Op::from(asm::Stack::Push(0))]).next().unwrap();
+    let alpha: Vec<u8> = vec![push_op, 0x00, 0xff, 0x02, 0x10, 0x20, 0x62, 0x63, 0x70, 0x80, 0x82, 0x90, 0x91, 0x7a];
+    for &a in &alpha {
+        for &b in &alpha {
+            for &c in &alpha {
+                check_bytes(ctx, &format!("bytes3/{a}/{b}/{c}"), &[a, b, c]);
+            }
+        }
+    }
+    for lead in [vec![], vec![0x02u8], vec![0xffu8]] {
+        for len in 0..=8usize {
+            for tail in [vec![], vec![0x02u8], vec![push_op]] {
+                let mut v = lead.clone();
+                v.push(push_op);
+                v.extend((0..len).map(|i| (0x80 + i) as u8));
+                if len == 8 {
+                    v.extend(tail.clone());
+                }
+                check_bytes(ctx, &format!("push/{}/{len}/{}", lead.len(), tail.len()), &v);
+            }
+        }
+    }
+    // ---- execution equivalence on enumerated programs
+    use asm::{Alu, Compute, Memory as M, Pred, Stack as S, TotalControlFlow as T};
+    let p = |w: Word| -> asm::Op { S::Push(w).into() };
+    let palette: Vec<asm::Op> = vec![
+        p(0), p(1), p(2), p(-1), S::Pop.into(), S::Dup.into(), S::Swap.into(), Alu::Add.into(), Alu::Sub.into(), Pred::Eq.into(),
+        T::JumpIf.into(), T::HaltIf.into(), T::Halt.into(), S::Repeat.into(), S::RepeatEnd.into(), M::Alloc.into(), M::Store.into(), M::Load.into(),
+        Compute::Compute.into(), Compute::ComputeEnd.into(),
+    ];
+    let maxlen = if ctx.thorough { 4 } else { 3 };
+    let mut progs: Vec<Vec<asm::Op>> = vec![vec![]];
+    let mut layer: Vec<Vec<asm::Op>> = vec![vec![]];
+    for _ in 0..maxlen {
+        let mut next = Vec::new();
+        for s in &layer {
+            for o in &palette {
+                let mut t = s.clone();
+                t.push(*o);
+                next.push(t);
+            }
+        }
+        progs.extend(next.iter().cloned());
+        layer = next;
+    }
+    for (i, ops) in progs.iter().enumerate() {
+        for (si, stack0) in [vec![], vec![3, 1], vec![2, 1, 1]].iter().enumerate() {
+            exec_both(ctx, &format!("exec/{i}/{si}/0"), ops, 0, stack0);
+        }
+        if i % 50 == 0 {
+            // resuming at / past the end of the program
+            exec_both(ctx, &format!("exec/{i}/0/end"), ops, ops.len(), &[]);
+            exec_both(ctx, &format!("exec/{i}/0/past"), ops, ops.len() + 1, &[]);
+            exec_both(ctx, &format!("exec/{i}/0/far"), ops, ops.len() + 7, &[]);
+        }
+    }
+    // a few hand-written longer programs: forward jump past the end, repeat loop ending in Push, compute children running to the end
+    let longer: Vec<Vec<asm::Op>> = vec![
+        vec![p(5), p(1), T::JumpIf.into(), p(7)],
+        vec![p(2), p(1), T::JumpIf.into(), p(7)],
+        vec![p(3), p(1), S::Repeat.into(), p(4), S::Pop.into(), S::RepeatEnd.into(), p(9)],
+        vec![p(3), p(0), S::Repeat.into(), S::RepeatEnd.into(), p(0x1122334455667788)],
+        vec![p(2), Compute::Compute.into(), p(1), M::Alloc.into(), M::Store.into()],
+        vec![p(2), Compute::Compute.into(), p(1), M::Alloc.into(), M::Store.into(), p(6)],
+        vec![p(2), Compute::Compute.into(), S::Pop.into(), Compute::ComputeEnd.into(), p(6)],
+        vec![p(1), p(2), Alu::Add.into(), p(3), Pred::Eq.into()],
+    ];
+    for (i, ops) in longer.iter().enumerate() {
+        exec_both(ctx, &format!("exec-long/{i}"), ops, 0, &[]);
+    }
+}
